@@ -15,6 +15,7 @@ Oracle (independent of Lean, over virtual time): see `oracle_history` and `direc
 from __future__ import annotations
 
 import bisect
+import functools
 import datetime
 import json
 from typing import Any
@@ -159,6 +160,7 @@ def gen_direct(rng: Any) -> dict:
             "interrupt": None if rng.random() < 0.7 else rng.choice([1, 5, 100, 4000])}
 
 
+@functools.lru_cache(maxsize=200_000)
 def _parse_ls_independent(v: str) -> float | None:
     """Seconds since EPOCH, by the standard library (not iso8601); None when it is not one of our formats."""
     try:
@@ -393,6 +395,8 @@ class Hist:
         margins = [min(5, int(o.get("lifetime", 60)) - 1) if int(o.get("lifetime", 60)) >= 2 else 0.5 for o in sc["ops"].values()]
         # peering events may arrive later than the keep-alive margin of some operator: stale views look dead
         self.late = self.dmax + 4 * LAT >= min(margins)
+        self._dl: list | None = None
+        self._dl_keys: list = []
         self.t_fail: dict[int, float] = {}
         for g in tr.get("guard_failures", []):
             self.t_fail.setdefault(g["inc"], g["t"])
@@ -460,15 +464,18 @@ class Hist:
 
     def change_points(self, t0: float, t1: float) -> list[float]:
         """Moments in (t0, t1] where the status or some record's liveness changes."""
-        pts = [t for t in self.ph_t if t0 < t <= t1]
-        for h in self.ph:
-            if h["t"] > t1:
-                break
-            for r in (h["status"] or {}).values():
-                d = self.deadline(r)
-                if d is not None and t0 < d <= t1:
-                    pts.append(d)
-        return sorted(set(pts))
+        if self._dl is None:
+            seen: dict[float, float] = {}
+            for h in self.ph:
+                for r in (h["status"] or {}).values():
+                    d = self.deadline(r)
+                    if d is not None and (d not in seen or h["t"] < seen[d]):
+                        seen[d] = h["t"]
+            self._dl = sorted(seen.items())
+            self._dl_keys = [d for d, _ in self._dl]
+        pts = self.ph_t[bisect.bisect_right(self.ph_t, t0):bisect.bisect_right(self.ph_t, t1)]
+        lo, hi = bisect.bisect_right(self._dl_keys, t0), bisect.bisect_right(self._dl_keys, t1)
+        return sorted(set(pts) | {d for d, first in self._dl[lo:hi] if first <= t1})
 
 
 def oracle_history(ctx: Ctx, sc: dict, tr: dict, full: bool = False) -> dict:
@@ -841,6 +848,8 @@ def _run_pool(items: list[dict], wall: float) -> list[dict]:
             raise RuntimeError(f"simulation worker failed on {it.get('kind', 'history')} item: {str(r)[:3000]}")
         if isinstance(r["trace"], dict) and r["trace"].get("sim_error"):
             raise RuntimeError(f"simulation error: {r['trace']['sim_error']} in {json.dumps(it)[:1500]}")
+        if isinstance(r["trace"], dict) and r["trace"].get("judge_error"):
+            raise RuntimeError(f"judgement failed in the worker: {r['trace']['judge_error']}")
     return res
 
 
@@ -919,90 +928,154 @@ def check_keepalive(ctx: Ctx) -> None:
     ctx.exhaustive = None
 
 
-def check_histories(ctx: Ctx, scenarios: list[dict], reqs: list, impls: list, wheres: list, flags: list,
-                    ka_reqs: list, ka_impls: list, ka_where: list, lts: tuple | None = None) -> None:
-    lts_reqs, lts_impls, lts_where = lts if lts is not None else ([], [], [])
-    results = _run_pool(scenarios, wall=60.0)
-    for sc, res in zip(scenarios, results):
-        tr = res["trace"]
-        ctx.traces += 1
-        stats = oracle_history(ctx, sc, tr)
-        for k, v in stats.items():
-            ctx.count("history." + k, "total", v)
-        ctx.count("history.ops", len(sc["ops"]))
-        ctx.count("history.events", ",".join(sorted({e[1] for e in sc["timeline"]})))
-        for p in tr["pcalls"]:
-            if p["now2"] is None and p["error"] in (None, "cancelled") and p["name_ok"]:
-                continue            # cancelled before it got anywhere (operator exit)
-            if p["error"] not in (None, "cancelled"):
-                impl: Any = ["err", sim_c13.ERR_ENUM.get(p["error"], "other:" + p["error"])]
-            elif not p["name_ok"]:
-                impl = "ignored"
-            else:
-                turned = p["turned"]
-                impl = {"cleaned": p["cleaned"] or [], "turned": turned[0] if len(turned) == 1 else (None if not turned else turned),
-                        "paused": p["toggle_after"], "delays": p["delays"]}
-                if p["unslept"] is None and p["finished"]:
-                    impl["sleep"] = p["slept"] if p["slept"] else None
-                    impl["touch"] = p["touched"]
-            interrupted = not (isinstance(impl, dict) and "sleep" in impl)
-            reqs.append(decide_request(sim_c13.abstract_status(p["status"]), p["me"], p["prio"], p["autoclean"], p["name_ok"],
-                                       p["toggle_before"], p["t0"], p["now2"] if p["now2"] is not None else p["t0"]))
-            impls.append(impl)
-            flags.append(interrupted)
-            wheres.append({"scenario": sc, "call": {k: v for k, v in p.items() if k != "status"}, "status": p["status"]})
-            ctx.case(key=_shape_of_call(p["status"], p["me"], p["prio"], p["toggle_before"], impl), nontrivial=bool(p["status"]),
-                     sample={"scenario_seed": sc.get("seed"), "call": p} if len(reqs) % 4001 == 7 else None)
-        # ---- LTS-level ties: the write semantics (`Status.patch`) and the stale-view step (`deliverStale`) -----------------
-        who_of = {i["inc"]: i["who"] for i in tr["incs"]}
-        for w in tr.get("writes", []):
-            b, a_, pt = wf_status(w["before"]), wf_status(w["after"]), w["patch"]
-            if b is None or a_ is None or not isinstance(pt, dict):
-                ctx.count("lts.write", "skipped (not well-formed)")
-                continue
-            pl = []
+class Collector:
+    """What `Ctx` offers to the per-history judgement, collected inside the worker process and merged by the parent."""
+
+    def __init__(self) -> None:
+        self.failures: list = []
+        self.counts: dict[str, dict[str, int]] = {}
+        self.cases: dict[str, list] = {}
+        self.samples: list = []
+
+    def oracle_fail(self, what: str, replay: Any, signature: dict | None = None) -> None:
+        if len(self.failures) < 8:
+            self.failures.append(["oracle", what, replay, signature])
+
+    def tie_fail(self, what: str, replay: Any) -> None:
+        if len(self.failures) < 8:
+            self.failures.append(["tie", what, replay, None])
+
+    def count(self, group: str, tag: Any, n: int = 1) -> None:
+        g = self.counts.setdefault(group, {})
+        g[str(tag)] = g.get(str(tag), 0) + n
+
+    def case(self, key: Any = None, nontrivial: bool = False, sample: Any = None) -> None:
+        k = leanio.canon(key)
+        c = self.cases.setdefault(k, [0, False])
+        c[0] += 1
+        c[1] = c[1] or bool(nontrivial)
+        if sample is not None and len(self.samples) < 1:
+            self.samples.append(sample)
+
+
+def judge(sc: dict, tr: dict, full: bool = False) -> dict:
+    """Everything that is decided from one history's trace: the oracle, and the requests for the Lean ties (runs in the worker)."""
+    col = Collector()
+    calls: list = []
+    ka: list = []
+    lts: list = []
+    stats = oracle_history(col, sc, tr, full)      # type: ignore[arg-type]
+    for k, v in stats.items():
+        col.count("history." + k, "total", v)
+    col.count("history.ops", len(sc["ops"]))
+    col.count("history.events", ",".join(sorted({e[1] for e in sc["timeline"]})))
+    for n, p in enumerate(tr["pcalls"]):
+        if p["now2"] is None and p["error"] in (None, "cancelled") and p["name_ok"]:
+            continue            # cancelled before it got anywhere (operator exit)
+        if p["error"] not in (None, "cancelled"):
+            impl: Any = ["err", sim_c13.ERR_ENUM.get(p["error"], "other:" + p["error"])]
+        elif not p["name_ok"]:
+            impl = "ignored"
+        else:
+            turned = p["turned"]
+            impl = {"cleaned": p["cleaned"] or [], "turned": turned[0] if len(turned) == 1 else (None if not turned else turned),
+                    "paused": p["toggle_after"], "delays": p["delays"]}
+            if p["unslept"] is None and p["finished"]:
+                impl["sleep"] = p["slept"] if p["slept"] else None
+                impl["touch"] = p["touched"]
+        interrupted = not (isinstance(impl, dict) and "sleep" in impl)
+        calls.append([decide_request(sim_c13.abstract_status(p["status"]), p["me"], p["prio"], p["autoclean"], p["name_ok"],
+                                     p["toggle_before"], p["t0"], p["now2"] if p["now2"] is not None else p["t0"]), impl, interrupted])
+        col.case(key=_shape_of_call(p["status"], p["me"], p["prio"], p["toggle_before"], impl), nontrivial=bool(p["status"]),
+                 sample={"scenario_seed": sc.get("seed"), "call": p} if n == 7 and sc.get("seed", 0) % 41 == 0 else None)
+    # ---- LTS-level ties: the write semantics (`Status.patch`) and the stale-view step (`deliverStale`) -----------------
+    who_of = {i["inc"]: i["who"] for i in tr["incs"]}
+    bound = 1 + sim_c13.ticks(max([0.0] + [float(x) for x in (sc.get("patch_latency") or {}).values()]))
+    wf_writes = []
+    for w in tr.get("writes", []):
+        b, a_, pt = wf_status(w["before"]), wf_status(w["after"]), w["patch"]
+        pl: list | None = []
+        if b is None or a_ is None or not isinstance(pt, dict):
+            pl = None
+        else:
             for k, v in pt.items():
                 vv = None if v is None else wf_rec(v)
                 if v is not None and vv is None:
                     pl = None
                     break
                 pl.append([k, vv])
-            if pl is None:
-                ctx.count("lts.write", "skipped (not well-formed)")
-                continue
-            lts_reqs.append(["C13.write", b, pl])
-            lts_impls.append(a_)
-            lts_where.append({"scenario": sc, "write": w})
-            ctx.count("lts.write", "touch" if any(v is not None for v in pt.values()) else "erase")
-            for k, v in pt.items():
-                if isinstance(v, dict) and wf_rec(v) is not None:
-                    lag = sim_c13.ticks(w["t"]) - wf_rec(v)["lastseen"]
-                    ctx.count("lts.touch_lag_ticks", lag)
-                    bound = 1 + sim_c13.ticks(max([0.0] + [float(x) for x in (sc.get("patch_latency") or {}).values()]))
-                    if not (0 <= lag <= bound):
-                        ctx.tie_fail(f"a record landed {lag} ticks after it was stamped: the harness' API latency exceeds the bound B the "
-                                     f"timely-run theorems assume", {"scenario": sc, "write": w})
-        for p in tr["pcalls"]:
-            if not p["cleaned"] or p["toggle_before"] is None or p["error"] not in (None, "cancelled"):
-                continue
-            view = wf_status(p["status"])
-            ws = [w for w in tr.get("writes", []) if w["who"] == who_of.get(p["inc"]) and sim_c13.ticks(w["t_issue"]) == p["t0"]
-                  and isinstance(w["patch"], dict) and list(w["patch"].keys()) == p["cleaned"] and all(v is None for v in w["patch"].values())]
-            if view is None or len(ws) != 1 or wf_status(ws[0]["before"]) is None or wf_status(ws[0]["after"]) is None:
-                ctx.count("lts.stale", "skipped")
-                continue
-            lts_reqs.append(["C13.stale", {"u": TPS, "current": wf_status(ws[0]["before"]), "view": view, "me": p["me"], "prio": p["prio"],
-                                           "paused": p["toggle_before"], "now": p["t0"]}])
-            lts_impls.append({"status": wf_status(ws[0]["after"]), "paused": p["toggle_after"]})
-            lts_where.append({"scenario": sc, "call": {k: v for k, v in p.items() if k != "status"}, "view": p["status"], "write": ws[0]})
-            ctx.count("lts.stale", "view==current" if view == wf_status(ws[0]["before"]) else "view older than current")
-        for kk in tr["ka"]:
-            if kk["lifetime"] is None:
-                continue
-            ka_reqs.append(["C13.kasleep", TPS, kk["lifetime"], kk["jitter"]])
-            ka_impls.append(sim_c13.ticks(kk["sleep"]))
-            ka_where.append({"scenario": sc, "keepalive": kk})
-            ctx.case(key={"ka-sim": [kk["lifetime"], kk["jitter"]]}, nontrivial=True)
+        wf_writes.append((w, b, a_, pl))
+        if pl is None:
+            col.count("lts.write", "skipped (not well-formed)")
+            continue
+        lts.append([["C13.write", b, pl], a_])
+        col.count("lts.write", "touch" if any(v is not None for v in pt.values()) else "erase")
+        for k, vv in pl:
+            if vv is not None:
+                lag = sim_c13.ticks(w["t"]) - vv["lastseen"]
+                col.count("lts.touch_lag_ticks", lag)
+                if not (0 <= lag <= bound):
+                    col.tie_fail(f"a record landed {lag} ticks after it was stamped: the harness' API latency exceeds the bound B the "
+                                 f"timely-run theorems assume", {"scenario": sc, "write": w})
+    by_issue: dict[tuple, list] = {}
+    for (w, b, a_, pl) in wf_writes:
+        by_issue.setdefault((w["who"], sim_c13.ticks(w["t_issue"])), []).append((w, b, a_, pl))
+    for p in tr["pcalls"]:
+        if not p["cleaned"] or p["toggle_before"] is None or p["error"] not in (None, "cancelled"):
+            continue
+        view = wf_status(p["status"])
+        ws = [x for x in by_issue.get((who_of.get(p["inc"]), p["t0"]), [])
+              if isinstance(x[0]["patch"], dict) and list(x[0]["patch"].keys()) == p["cleaned"] and all(v is None for v in x[0]["patch"].values())]
+        if view is None or len(ws) != 1 or ws[0][1] is None or ws[0][2] is None:
+            col.count("lts.stale", "skipped")
+            continue
+        lts.append([["C13.stale", {"u": TPS, "current": ws[0][1], "view": view, "me": p["me"], "prio": p["prio"],
+                                   "paused": p["toggle_before"], "now": p["t0"]}], {"status": ws[0][2], "paused": p["toggle_after"]}])
+        col.count("lts.stale", "view==current" if view == ws[0][1] else "view older than current")
+    for kk in tr["ka"]:
+        if kk["lifetime"] is None:
+            continue
+        ka.append([["C13.kasleep", TPS, kk["lifetime"], kk["jitter"]], sim_c13.ticks(kk["sleep"])])
+        col.case(key={"ka-sim": [kk["lifetime"], kk["jitter"]]}, nontrivial=True)
+    return {"judged": True, "failures": col.failures, "counts": col.counts, "cases": col.cases, "samples": col.samples,
+            "calls": calls, "ka": ka, "lts": lts, "sim_error": tr.get("sim_error")}
+
+
+def check_histories(ctx: Ctx, scenarios: list[dict], reqs: list, impls: list, wheres: list, flags: list,
+                    ka_reqs: list, ka_impls: list, ka_where: list, lts: tuple | None = None, full: bool = False) -> None:
+    lts_reqs, lts_impls, lts_where = lts if lts is not None else ([], [], [])
+    results = _run_pool([{**sc, "_judge": "full" if full else "std"} for sc in scenarios], wall=90.0)
+    for sc, res in zip(scenarios, results):
+        j = res["trace"]
+        ctx.traces += 1
+        for kind, what, replay, sig in j["failures"]:
+            if kind == "oracle":
+                ctx.oracle_fail(what, replay, sig)
+            else:
+                ctx.tie_fail(what, replay)
+        for g, tags in j["counts"].items():
+            for t, n in tags.items():
+                ctx.count(g, t, n)
+        for key, (n, nontrivial) in j["cases"].items():
+            ctx.evaluations += n
+            if nontrivial:
+                ctx.nontrivial.add(key)
+        for smp in j["samples"]:
+            if len(ctx.samples) < 6:
+                ctx.samples.append(smp)
+        for req, impl, interrupted in j["calls"]:
+            reqs.append(req)
+            impls.append(impl)
+            flags.append(interrupted)
+            wheres.append({"scenario": sc, "request": req})
+        for req, impl in j["ka"]:
+            ka_reqs.append(req)
+            ka_impls.append(impl)
+            ka_where.append({"scenario": sc, "request": req})
+        for req, impl in j["lts"]:
+            lts_reqs.append(req)
+            lts_impls.append(impl)
+            lts_where.append({"scenario": sc, "request": req})
 
 
 def _corpus() -> list[tuple[str, dict]]:
@@ -1052,17 +1125,16 @@ def run(ctx: Ctx) -> None:
 def run_witness(ctx: Ctx, name: str, d: dict) -> None:
     """A corpus history that is expected to FAIL the oracle in a given way (a proved counterexample replayed on the real
     code): the failure is reported with the finding's signature, so `known_findings.jsonl` decides how it is printed."""
-    tr = _run_pool([d["scenario"]], wall=60.0)[0]["trace"]
-    sub = Ctx(ctx.prop, ctx.tier, ctx.seed)
-    oracle_history(sub, d["scenario"], tr, full=True)
-    hits = [f for f in sub.failures if f.kind == "oracle" and (f.signature or {}).get("shape") == d["expect"]["shape"]]
+    j = _run_pool([{**d["scenario"], "_judge": "full"}], wall=90.0)[0]["trace"]
+    fails = [f for f in j["failures"] if f[0] == "oracle"]
+    hits = [f for f in fails if (f[3] or {}).get("shape") == d["expect"]["shape"]]
     ctx.count("witness", f"{name}:{'reproduced' if hits else 'not-reproduced'}")
     if hits:
-        ctx.oracle_fail(hits[0].what, {"scenario": d["scenario"], "witness": name}, d["expect"]["signature"])
+        ctx.oracle_fail(hits[0][1], {"scenario": d["scenario"], "witness": name}, d["expect"]["signature"])
     also = d["expect"].get("also", [])
-    other = [f for f in sub.failures if f.kind == "oracle" and f not in hits and also != "*" and (f.signature or {}).get("shape") not in also]
+    other = [f for f in fails if f not in hits and also != "*" and (f[3] or {}).get("shape") not in also]
     for f in other[:3]:
-        ctx.oracle_fail(f.what, f.replay, f.signature)
+        ctx.oracle_fail(f[1], f[2], f[3])
 
 
 def search(ctx: Ctx, broken: list) -> None:
